@@ -161,6 +161,10 @@ func (s *session) do(idx int, op opRec, made map[string]bool) opResult {
 				cmds = []container.OpenCmd{{Path: fmt.Sprintf("/w/f%d", idx), Flag: os.O_CREATE | os.O_WRONLY, Perm: 0644}}
 			case "bad":
 				cmds = []container.OpenCmd{{Path: "/w/no/such/dir/f", Flag: os.O_CREATE | os.O_WRONLY, Perm: 0644}}
+			case "max": // the largest batch one reply can carry (253 descriptors), all of them succeed
+				for j := 0; j < 253; j++ {
+					cmds = append(cmds, container.OpenCmd{Path: fmt.Sprintf("/w/mx%d_%d", idx, j), Flag: os.O_CREATE | os.O_WRONLY, Perm: 0644})
+				}
 			case "longbatch": // the request fits into one packet, the per-item errors of the reply do not
 				for j := 0; j < 31; j++ {
 					cmds = append(cmds, container.OpenCmd{Path: "/w/nodir/" + strings.Repeat("p", 1016), Flag: os.O_RDONLY})
@@ -183,6 +187,9 @@ func (s *session) do(idx int, op opRec, made map[string]bool) opResult {
 					d += "."
 					x.File.Close()
 				}
+			}
+			if len(d) > 40 && strings.Count(d, ".") == len(d) {
+				d = fmt.Sprintf(".x%d", len(d))
 			}
 			return opResult{R: "ok", Detail: d}
 		})
